@@ -263,9 +263,9 @@ Section Import.
         destruct (better_cotrans x (best Blk st) b Exb) as [C|C].
         * rewrite (Hmax _ Hx) in C. discriminate.
         * rewrite (better_asym _ _ E) in C. discriminate.
-    - apply known_in. exists b. cbn [store]. auto.
+    - apply known_in. exists b. cbn [store]. split; [left; auto|auto].
     - intros i Hi. apply known_in in Hi. destruct Hi as [x [Hx1 Hx2]].
-      apply known_in. exists x. cbn [store]. auto.
+      apply known_in. exists x. cbn [store]. split; [right; auto|auto].
     - destruct (better b (best Blk st)); auto.
   Qed.
 
@@ -293,7 +293,7 @@ Section Import.
                   (best Blk st' = best Blk st \/ In (best Blk st') l).
   Proof.
     induction l as [|b t IH]; intros st Hmax Hl.
-    - exists st. cbn. repeat split; auto. intros b [].
+    - exists st. cbn. split_and; auto.
     - cbn in Hl. destruct Hl as [Hp [Hv Hrest]].
       cbn [Model.import_all].
       assert (Himp : exists st1, import st b = Some st1).
@@ -303,7 +303,7 @@ Section Import.
       destruct (IH st1 M1) as [st' [I1 [I2 [I3 [I4 I5]]]]].
       { eapply linked_weaken; [|exact Hrest]. intros i Hi. apply orb_true_iff in Hi.
         destruct Hi as [Hi|Hi]; auto. apply N.eqb_eq in Hi. subst. auto. }
-      exists st'. repeat split; auto.
+      exists st'. split_and; auto.
       + intros x [->|Hx]; auto.
       + destruct I5 as [I5|I5]; [|right; right; auto].
         destruct M4 as [M4|M4]; [left; congruence|]. right. left. congruence.
@@ -324,7 +324,7 @@ Section Import.
   Proof.
     intros l st h Hmax Hl Hh Hb Hothers.
     destruct (import_all_ok l st Hmax Hl) as [st' [I1 [I2 [I3 [I4 I5]]]]].
-    exists st'. repeat split; auto.
+    exists st'. split_and; auto.
     assert (Hk := I3 _ Hh). apply known_in in Hk. destruct Hk as [h' [Hh'1 Hh'2]].
     apply bid_inj in Hh'2. subst h'.
     assert (Hnb := I2 _ Hh'1).
